@@ -16,7 +16,7 @@ from ..fa import FA
 from ..loader import AnalysisError
 from .valeq import check_typed_identity
 from .ladders import extract_ladder, check_ladder_order, repo_subclass_pairs
-from .c16 import (subst_names, FlatInit, outliving_state_reads, canon_conj, conds, fexpand, ftext, is_copy_of, lit_expr, map_shape, origin, same_def, single_def, strip_cast, _ref_name)
+from .c16 import (subst_names, FlatInit, is_empty_value, outliving_state_reads, canon_conj, conds, fexpand, ftext, is_copy_of, lit_expr, map_shape, origin, same_def, single_def, strip_cast, _ref_name)
 
 AH = "reference.ArgumentHasher"
 FRA = "reference.FunctionReferenceWithArguments"
@@ -950,7 +950,7 @@ def _denotes_fra(fa, e, at, self_name, cls_name, depth=4):
         return _denotes_fra(fa, e.body, at, self_name, cls_name, depth) and _denotes_fra(fa, e.orelse, at, self_name, cls_name, depth)
     if isinstance(e, ast.Call):
         d = A.call_dotted(e) or ""
-        last = d.split(".")[-1]
+        last = A.call_attr(e) or d.split(".")[-1]
         if last in ("copy", "deepcopy") and len(e.args) >= 1 and d in ("copy.copy", "copy.deepcopy", "copy", "deepcopy"):
             return _denotes_fra(fa, e.args[0], at, self_name, cls_name, depth)
         if last == "__new__" and isinstance(e.func, ast.Attribute):
@@ -1054,13 +1054,15 @@ def derived_fields_clause(ck, rule):
         self_name = ps[0] if is_method and ps and not ({"staticmethod", "classmethod"} & decos) else None
         cls_name = ps[0] if is_method and ps and "classmethod" in decos else None
         stores = {}     # receiver text -> [(field, stmt, node)]
+        # (a receiver that is given one of the fields only such a reference has is one, wherever it came from)
+        known = {A.norm(strip_cast(recv)) for (recv, field, st) in raw if field in _FRA_ONLY}
         for (recv, field, st) in raw:
             ids = fa.nodes(st)
             if not ids:
                 continue
             r = strip_cast(recv)
-            typed = _denotes_fra(fa, r, ids[0], self_name, cls_name)
-            if not typed and field not in _FRA_ONLY:
+            typed = A.norm(r) in known or _denotes_fra(fa, r, ids[0], self_name, cls_name)
+            if not typed:
                 continue
             if not typed and fi.cls is not None and fi.cls.name != FRA_CLS and isinstance(r, ast.Name) and r.id == self_name:
                 continue    # a class of its own that happens to have a field of that name
@@ -1658,7 +1660,7 @@ def check(ck):
             dp = fa.deps(d.value, d.node)
             if ("call:normalize" in dp or ("call:_decode" in dp and "call:_encode" in dp)) and ("param:" + src) in dp:
                 n_norm += 1
-            elif fa.xnorm(d.value, d.node) not in EMPTY:
+            elif not is_empty_value(fa.xnorm(d.value, d.node)):
                 return False
         return n_norm >= 1
 
